@@ -603,9 +603,9 @@ func isPrecompile(a common.Address) bool {
 	return false
 }
 
-// resurrected names the accounts that did not exist before, exist after, and hold at least the
-// balance that was destroyed with them at an earlier Finalise; it returns the total of those
-// destroyed balances. Used only to give that situation its own violation class.
+// resurrected names the accounts that did not exist before, exist after, and had a balance
+// destroyed with them at an earlier Finalise; it returns the total of those destroyed
+// balances. Used only to give that situation (surplus == that total) its own violation class.
 func (o *oracle) resurrected(before, after *Obs) (string, *big.Int) {
 	total := new(big.Int)
 	var who []string
@@ -614,10 +614,8 @@ func (o *oracle) resurrected(before, after *Obs) (string, *big.Int) {
 		if g == nil || g.Sign() <= 0 || before.Accts[i].Exist || !after.Accts[i].Exist {
 			continue
 		}
-		if after.Accts[i].balance().Cmp(g) >= 0 {
-			total.Add(total, g)
-			who = append(who, nm(a))
-		}
+		total.Add(total, g)
+		who = append(who, nm(a))
 	}
 	return strings.Join(who, ","), total
 }
